@@ -99,8 +99,19 @@ class Checker:
             self.error(f"{rule}: internal error {type(e).__name__}: {e} [{tb[-3].strip() if len(tb) > 2 else ''}]")
 
     # ------------------------------------------------------------------ verdict
+    def _replay_path(self) -> str:
+        """replay files live next to, not inside, the evidence directory (which holds evidence files only)"""
+        if os.environ.get("NSSA_NO_EVIDENCE"):
+            return os.path.join("/tmp", f"{self.prop}.violation.json")
+        evid = os.environ.get("NSSA_EVID_DIR", EVID)
+        return os.path.join(os.path.dirname(os.path.abspath(evid)), "replay", f"{self.prop}.violation.json")
+
     def finish(self) -> int:
         known = load_known()
+        try:
+            os.remove(self._replay_path())      # a replay file never outlives the run that wrote it
+        except OSError:
+            pass
         failing = [o for o in self.obligations if o.ok is False]
         undecided = [o for o in self.obligations if o.ok is None]
         for o in undecided:
@@ -115,10 +126,8 @@ class Checker:
         if unmatched:
             # a definite violation is reported even if other parts of the analysis were undecidable
             code = 1
-            evid = os.environ.get("NSSA_EVID_DIR", EVID) if not os.environ.get("NSSA_NO_EVIDENCE") \
-                else "/tmp"
-            os.makedirs(evid, exist_ok=True)
-            replay = os.path.join(evid, f"{self.prop}.violation.json")
+            replay = self._replay_path()
+            os.makedirs(os.path.dirname(replay), exist_ok=True)
             with open(replay, "w") as f:
                 json.dump({"property": self.prop, "violations": [o.to_json() for o, _ in unmatched]},
                           f, indent=1, default=str)
